@@ -64,8 +64,8 @@ IsPrefix(p, s) == Len(p) <= Len(s) /\ \A i \in 1..Len(p) : p[i] = s[i]
 
 FreshEp(c) ==
   [e \in E |->
-     IF e = "C" THEN InitEp("C", c.idC, IF c.idC = "certM" THEN "dhM" ELSE "dhC", "rC", ExpFp(c.fpC, "C"))
-                ELSE InitEp("S", c.idS, IF c.idS = "certM" THEN "dhM" ELSE "dhS", "rS", ExpFp(c.fpS, "S"))]
+     IF e = "C" THEN InitEp("C", c.idC, IF c.idC = "certM" THEN "dhMc" ELSE "dhC", "rC", ExpFp(c.fpC, "C"))
+                ELSE InitEp("S", c.idS, IF c.idS = "certM" THEN "dhMs" ELSE "dhS", "rS", ExpFp(c.fpS, "S"))]
 
 \* a fresh pair, both started (the client's ClientHello is owed)
 ResetTo(c) ==
@@ -159,7 +159,8 @@ TConnected ==
                              /\ (ep[Peer(e)].st = "Connected" /\ ep[e].st = "Connected")
                                    => /\ (kh[Peer(e)] = Ev.kh) = (ep[e].keys = ep[Peer(e)].keys)
                                       /\ kh[Peer(e)] = Ev.kh)
-     /\ Rule("Auth", AuthOf(ep[e]))
+     /\ Rule("Auth", e = "C" => AuthOf(ep[e]))
+     /\ Rule("AuthServer", e = "S" => AuthOf(ep[e]))
   /\ l' = l + 1
   /\ UNCHANGED <<ep, pend, sent, kh>>
 
